@@ -41,6 +41,7 @@ def run(chk: Check, proj: Project) -> None:
     s4(chk, proj, w)
     s5(chk, proj, w)
     s6(chk, proj, w)
+    s9_forloop_copies(chk, proj, w)
     s7(chk, proj, w)
     from .C17 import s5_accessors
 
@@ -258,6 +259,33 @@ def s5(chk: Check, proj: Project, w) -> None:
                 chk.violated("S5", f"{mm.name}:{q}:{short(s, 50)}", mm.loc(s), f"`{short(s)}` assigns outer_context outside the constructor / ComponentContext construction")
 
 
+def s9_forloop_copies(chk: Check, proj: Project, w) -> None:
+    chk.rule("S9", "sibling agreement: every place that copies a `forloop` dict for later (deferred) use also copies the parentloop chain below it with a loop; a one-level copy keeps the live parent loop dicts")
+    n = 0
+    for m, q, f in proj.all_funcs():
+        sites = []
+        for st in stmts(f):
+            if isinstance(st, ast.Assign) and isinstance(st.value, ast.Call) and isinstance(st.value.func, ast.Attribute) and st.value.func.attr == "copy" and not st.value.args:
+                src = st.value.func.value
+                if isinstance(src, ast.Subscript) and isinstance(src.slice, ast.Constant) and src.slice.value == "forloop":
+                    sites.append(st)
+        for st in sites:
+            n += 1
+            chk.analysed(f"{m.name}:{q}")
+            walks = []
+            for lp in ast.walk(f):
+                if isinstance(lp, (ast.While, ast.For)):
+                    for a in ast.walk(lp):
+                        if isinstance(a, ast.Assign) and isinstance(a.targets[0], ast.Subscript) and isinstance(a.targets[0].slice, ast.Constant) and a.targets[0].slice.value == "parentloop" \
+                                and isinstance(a.value, ast.Call) and isinstance(a.value.func, ast.Attribute) and a.value.func.attr == "copy":
+                            walks.append(lp)
+            ok = bool(walks) and any(w_.lineno > st.lineno for w_ in walks)
+            chk.ob("S9", f"{m.name.replace('django_components.', '')}:{q}:forloop-copy-walks-parentloop", m.loc(st), ok,
+                   "the copy of `forloop` is followed by a loop that copies each `parentloop` below it" if ok else
+                   f"`{short(st)}` copies one level only: `forloop.parentloop` stays the dict that the enclosing {{% for %}} keeps updating, so content rendered later (a fill produced in nested loops, a deferred component) reports the outer loop's FINAL counter instead of the one at its own iteration")
+    chk.floor("S9", n, 2)
+
+
 def s6(chk: Check, proj: Project, w) -> None:
     chk.rule("S6", "snapshot_context: the second copy loop uses none of the first loop's variables; the forloop chain walk advances into the freshly stored copy; fill variables are layered relative to the LAST component layer")
     m, f = proj.func("util.context", "snapshot_context")
@@ -287,6 +315,29 @@ def s6(chk: Check, proj: Project, w) -> None:
             own = {n.id for n in ast.walk(lp) if isinstance(n, ast.Name) and isinstance(n.ctx, ast.Store)}
             ok = bool(cp) and all(isinstance(c.args[0], ast.Name) and c.args[0].id in own for c in cp)
             chk.ob("S6", f"util.context:snapshot_context:loop{i + 1}-copies-own-dict", m.loc(lp), ok, "every layer is copied with CopiedDict(<this loop's dict>)")
+    # aliasing: the Context layers of the result are fresh copies, except layers strictly BELOW the topmost layer that
+    # an earlier snapshot already copied (the topmost one is still written by `{% ... as var %}` tags of the live render)
+    if loops:
+        lp0 = loops[0]
+        live = params(f)[0]
+        idxv = norm(lp0.target)
+        sl = [x for x in ast.walk(lp0) if isinstance(x, ast.Subscript) and isinstance(x.slice, ast.Slice) and norm(x.value) == f"{live}.dicts"]
+        whole = [x for x in ast.walk(lp0) if isinstance(x, ast.Attribute) and norm(x) == f"{live}.dicts" and isinstance(parent(x), (ast.BinOp, ast.Assign, ast.List, ast.Starred)) and not isinstance(parent(x), ast.Subscript)]
+        key = "util.context:snapshot_context:no-writable-layer-shared"
+        if whole:
+            chk.violated("S6", key, m.loc(whole[0]), f"`{short(enclosing_stmt(whole[0]))}` puts the live context's layer list itself into the snapshot")
+        elif not sl:
+            chk.holds("S6", key, m.loc(lp0), "no layer of the live context is reused by reference: every layer is copied")
+        else:
+            for x in sl:
+                up = x.slice.upper
+                if x.slice.lower is None and up is not None and norm(up) == idxv:
+                    chk.holds("S6", key, m.loc(x), f"only the layers strictly below the topmost already-copied layer (`{live}.dicts[:{idxv}]`) are reused; that layer itself is copied")
+                elif x.slice.lower is None and isinstance(up, ast.BinOp) and isinstance(up.op, ast.Add) and norm(up.left) == idxv:
+                    chk.violated("S6", key, m.loc(x),
+                                 f"`{short(enclosing_stmt(x))}` reuses the topmost already-copied layer BY REFERENCE (`[:{norm(up)}]` includes the layer at `{idxv}`): it is the live top layer of the parent's template render, so a later `{{% firstof .. as x %}}` / `{{% url .. as x %}}` in the parent is seen by the deferred child render and its fills")
+                else:
+                    chk.undecided("S6", key, m.loc(x), f"slice `{norm(x)}` of the live layer list not understood")
     wl = [x for x in body_walk(f) if isinstance(x, ast.While)]
     if len(wl) != 1:
         chk.undecided("S6", "util.context:snapshot_context:chain-walk", m.loc(f), f"{len(wl)} while loops")
